@@ -92,6 +92,8 @@ def run(tier, seed, replay=None):
                  "armor/////////helmet.dds", "textures\\a.dds"]
         rcases += ["resave name=%s opts=%s tex=%s" % (f, o, m.encode().hex()) for f in lsamples for o in ("raw", "default")
                    for m in (messy if tier != "quick" else messy[:4])]
+        # a root with many children (more than any sample has): the reordering must be stable from round to round
+        rcases += ["resave name=%s opts=default kids=%d" % (f, k) for f in lsamples for k in ((24,) if tier == "quick" else (17, 24, 60))]
         rcases += ["resave name=%s opts=default loose=%d order=%s" % (f, k, o) for f in lsamples
                    for k in ((4,) if tier == "quick" else (3, 4, 7)) for o in ("rev", "fwd", "mix")]
         fcases = [c[0].replace("blk ", "fileblk ", 1) for c in be.block_cases(info["blocks"], vers, seeds[:1])]
